@@ -144,6 +144,7 @@ def run_task(task):
             name = con.target
             eng = Engine(prog, C.CONTRACTS, C.FIELDS, FsIntrinsics(), [])
             eng.GHOST_SORTS = C.GHOSTS
+            eng.SCRATCH_GHOSTS = getattr(C, 'SCRATCH_GHOSTS', ())
             eng.variant = getattr(con, 'variant', None)
             fi = prog.funcs.get(name)
             if fi is None:
